@@ -55,27 +55,27 @@ fn sizes(t: Tier) -> Sizes {
         Tier::Quick => Sizes {
             exhaustive_n: 12,
             pairs: 2,
-            stm_sampled_shards: 8,
-            stm_trees: 5,
-            mk_sampled_shards: 8,
-            mk_trees: 5,
+            stm_sampled_shards: 16,
+            stm_trees: 8,
+            mk_sampled_shards: 16,
+            mk_trees: 8,
             map_exh_max_ranges: 2,
             map_sampled_shards: 16,
-            map_worlds: 8,
-            set_shards: 8,
-            set_worlds: 8,
+            map_worlds: 16,
+            set_shards: 16,
+            set_worlds: 16,
         },
         Tier::Thorough => Sizes {
-            exhaustive_n: 12,
-            pairs: 40,
+            exhaustive_n: 13,
+            pairs: 30,
             stm_sampled_shards: 64,
-            stm_trees: 24,
+            stm_trees: 30,
             mk_sampled_shards: 64,
-            mk_trees: 24,
+            mk_trees: 30,
             map_exh_max_ranges: 3,
-            map_sampled_shards: 96,
+            map_sampled_shards: 128,
             map_worlds: 40,
-            set_shards: 48,
+            set_shards: 64,
             set_worlds: 40,
         },
     }
@@ -445,7 +445,7 @@ fn main() {
     let pool = stm::key_pool(&mon, 40);
 
     vcore::run_shards(&mut mon, tasks.len() as u64, threads, |i, m| {
-        m.max_samples = 2;
+        m.max_samples = if matches!(tasks[i as usize], Task::MapSampled { .. }) { 2 } else { 1 };
         let t0 = std::time::Instant::now();
         match &tasks[i as usize] {
             #[cfg(feature = "full")]
